@@ -188,6 +188,10 @@ def pat_is(a: Term, b: Term) -> Term:
     return mk_op("is", a, b)
 
 
+def contains_attr(t: Term, name: str) -> bool:
+    return any(isinstance(s, tuple) and len(s) == 3 and s[0] == "a" and s[2] == name for s in subterms(t))
+
+
 def _exemption_predicate(ctx: Ctx, pid: str, site: str, t: Term, t1: Term, t2: Term, meth: Term):
     """C01.f: all(... for call1 in info[(t1, m)] for call2 in info[(t2, m)]) with elt
     nonexclusive(last common ancestor) or call_paths_exclusive(call1.call_path, call2.call_path)."""
@@ -218,17 +222,33 @@ def _exemption_predicate(ctx: Ctx, pid: str, site: str, t: Term, t1: Term, t2: T
               required="only pairs without a common ancestor may be skipped")
     f = to_formula(elt)
     ats = atoms_of(f)
-    nonex = [a for a in ats if pmatch("Q_x.nonexclusive", a)]
+    # The two calls are the same call of a nonexclusive method N exactly when N occurs in BOTH ancestor chains: N's body runs
+    # once whoever calls it, and its own call tree is validated as a root, so `method` is reached at most once below it.
+    # The chains may part below N and meet again in it (F23), so the test is existential over the shared ancestors; a test
+    # of one element of the common prefix misses that case.
+    nonex = [a for a in ats if pmatch("Q_x.nonexclusive", a) or (pmatch("any(Q_g)", a) and contains_attr(a, "nonexclusive"))]
     excl = [a for a in ats if pmatch("call_paths_exclusive(Q_p, Q_q)", a)]
     ok_shape = len(nonex) == 1 and len(excl) == 1 and equivalent(f, f_or(A(nonex[0]), A(excl[0]))) is None
     ctx.check(ok_shape, rule + ".pair-predicate", site, cons, found=fstr(f),
-              required="nonexclusive(common ancestor) or call_paths_exclusive(path1, path2)")
+              required="nonexclusive(some common ancestor) or call_paths_exclusive(path1, path2)")
     if not ok_shape:
         return
-    anc = pmatch("Q_x.nonexclusive", nonex[0])["x"]
-    ma = pmatch("longest_common_prefix(Q_a.ancestors, Q_b.ancestors)[-1]", anc)
-    ctx.check(ma is not None and {ma["a"], ma["b"]} == {c1, c2}, rule + ".ancestor", site, cons, found=tstr(anc),
-              required="the last element of the longest common prefix of the two ancestor chains (outermost shared method)")
+    ok_anc = False
+    mg = pmatch("any(Q_g)", nonex[0])
+    if mg is not None and mg["g"][0] == "lc" and len(mg["g"][3]) == 1:
+        _, _, elt_a, ((ba, it_anc, conds_anc),) = mg["g"]
+        mi = pmatch("Q_c.ancestors", it_anc)
+        mc = [pmatch("Q_x in Q_c.ancestors", c) for c in conds_anc]
+        ok_anc = (elt_a == ("a", ba, "nonexclusive") and mi is not None and len(mc) == 1 and mc[0] is not None and mc[0]["x"] == ba
+                  and {mi["c"], mc[0]["c"]} == {c1, c2})
+    if pid != "C07" and not ok_anc:
+        # safety properties only need "exempt ONLY IF a shared ancestor is nonexclusive"; an element of the common prefix is one
+        ma = pmatch("longest_common_prefix(Q_a.ancestors, Q_b.ancestors)[Q_k].nonexclusive", nonex[0])
+        ok_anc = ma is not None and {ma["a"], ma["b"]} == {c1, c2}
+    ctx.check(ok_anc, rule + ".ancestor", site, cons, found=tstr(nonex[0]),
+              required="some method occurring in the ancestor chains of both calls is nonexclusive: any(a.nonexclusive for a in "
+                       "call1.ancestors if a in call2.ancestors) -- one element of the common prefix does not see chains that part "
+                       "below a nonexclusive method and meet again in it")
     mp = pmatch("call_paths_exclusive(Q_p.call_path, Q_q.call_path)", excl[0])
     ctx.check(mp is not None and {mp["p"], mp["q"]} == {c1, c2}, rule + ".paths", site, cons, found=tstr(excl[0]),
               required="the call paths of the same two calls")
@@ -467,6 +487,20 @@ def cg_priority_passthrough(ctx: Ctx, pid: str):
                   required=f"{nm} appends the relation to self.relations for every argument value (no path returns or delegates without recording it on the receiver)")
 
 
+def _dependency_keys(fn, ex, t, depth=0) -> set:
+    """Names of the dependency keys a term reads, following self.<attr> stores of the same function."""
+    from ..term import subterms
+
+    keys = {s[1][1] for s in subterms(t) if isinstance(s, tuple) and s and s[0] == "call" and s[1][0] == "n" and s[1][1].endswith("Key")}
+    if depth < 2:
+        for s in subterms(t):
+            if isinstance(s, tuple) and len(s) == 3 and s[0] == "a" and s[1] == ("self",):
+                for st in ex.facts:
+                    if isinstance(st, Store) and st.target == s:
+                        keys |= _dependency_keys(fn, ex, st.value, depth + 1)
+    return keys
+
+
 def mgr_relation_copy(ctx: Ctx, pid: str):
     """C02.a: elaborate copies every relation of every transaction/method to its body, replacing only `end`."""
     rule = f"{pid}.relation-copy"
@@ -477,7 +511,18 @@ def mgr_relation_copy(ctx: Ctx, pid: str):
         its = loop_iters(e)
         lp = loops(e)
         ok_dom = len(lp) == 2 and pmatch("Q_x.relations", lp[1][1]) is not None and pmatch("Q_x.relations", lp[1][1])["x"] == lp[0][0][0] == m["e"]
-        ok_all = is_call_to(lp[0][1], "chain") and {tstr(a) for a in lp[0][1][2]} == {"self.transactions", "self.methods"} if lp else False
+        # relations can be declared on every TransactionBase front object: transactions, methods with a body, and methods
+        # given an implementation with provide() (registered under ProvidedMethodsKey only) -- F23
+        keys = set()
+        if lp:
+            for a in (lp[0][1][2] if is_call_to(lp[0][1], "chain") else (lp[0][1],)):
+                keys |= _dependency_keys(fn, ex, a)
+        need = {"TransactionsKey", "DefinedMethodsKey", "ProvidedMethodsKey"}
+        ok_all = need <= keys
+        ctx.check(ok_all, rule + ".domain", e.site, "TransactionManager.elaborate.relations.objects",
+                  found="objects registered under " + (", ".join(sorted(keys)) or "no dependency key"),
+                  required="relations are copied from the objects registered under TransactionsKey, DefinedMethodsKey and ProvidedMethodsKey "
+                           "(a method defined with provide() carries relations too)")
         rel = lp[1][0][0] if len(lp) == 2 else None
         r = m["r"]
         ok_val = False
@@ -489,6 +534,6 @@ def mgr_relation_copy(ctx: Ctx, pid: str):
                 named = {k[1]: v for k, v in items if k[0] == "c"}
                 ok_val = (len(spread) == 1 and pmatch("dataclass_asdict(Q_r)", spread[0]) is not None and pmatch("dataclass_asdict(Q_r)", spread[0])["r"] == rel
                           and set(named) == {"end"} and named["end"] == ("a", ("a", rel, "end"), "_body"))
-        ctx.check(ok_dom and ok_all and ok_val and not py_guard(e) is False and py_guard(e) is True, rule, e.site, "TransactionManager.elaborate.relations",
+        ctx.check(ok_dom and ok_val and not py_guard(e) is False and py_guard(e) is True, rule, e.site, "TransactionManager.elaborate.relations",
                   found=tstr(e.call)[:300] + " in " + " / ".join(tstr(i) for i in its),
                   required="for every transaction and method, every relation is copied to the body with only `end` replaced by its body")
